@@ -257,5 +257,36 @@ def x_zipstorage(report):
         f"def zipNameConsultsBuffer : Bool := {'true' if consults_buffer else 'false'}", ""])
 
 
-EXTRACTORS = [("c10_loaders", x_loaders), ("c10_manifest", x_manifest), ("c10_sqlite", x_sqlite),
+def x_lca(report):
+    src = translate.read("src/sourmash/lca/lca_db.py")
+    tree = ast.parse(src)
+    body = _body_src(_fn(tree, "_signatures", cls="LCA_Database"))
+    for piece in ["mhd = defaultdict(minhash.copy_and_clear)", "temp_vals = defaultdict(list)",
+                  "for hashval, idlist in self._hashval_to_idx.items(): for idx in idlist:",
+                  "for sig, vals in temp_vals.items(): mhd[sig].add_many(vals)",
+                  "sigd = {} for idx, mh in mhd.items(): ident = self._idx_to_ident[idx] name = self._ident_to_name[ident] "
+                  "ss = SourmashSignature(mh, name=name)"]:
+        if squash(piece) not in body:
+            raise Unrecognised("LCA_Database._signatures", "missing shape: " + piece[:100])
+    touch = squash("for idx in self._idx_to_ident: mhd[idx]")
+    between = body[body.index(squash("mhd[sig].add_many(vals)")) + len(squash("mhd[sig].add_many(vals)")):body.index(squash("sigd = {}"))].strip()
+    if between == "":
+        yields_empty = False
+    elif between == touch:
+        yields_empty = True
+    else:
+        raise Unrecognised("LCA_Database._signatures", "unmodelled statements before `sigd = {}`: " + between[:200])
+    ln = _body_src(_fn(tree, "__len__", cls="LCA_Database"))
+    if ln != squash("return self._next_index"):
+        raise Unrecognised("LCA_Database.__len__", "body changed: " + ln[:100])
+    report["outputs"]["lcaYieldsEmpty"] = yields_empty
+    return "\n".join([
+        "", "/-- does `LCA_Database._signatures` create an entry for every idx of `_idx_to_ident` (so that sketches",
+        "    that are empty at the database's scaled are returned)?  false = before the fix of D11 -/",
+        f"def lcaYieldsEmpty : Bool := {'true' if yields_empty else 'false'}", ""])
+
+
+SERVES = ["C10"]
+
+EXTRACTORS = [("c10_lca", x_lca), ("c10_loaders", x_loaders), ("c10_manifest", x_manifest), ("c10_sqlite", x_sqlite),
               ("c10_zipstorage", x_zipstorage)]
